@@ -159,6 +159,7 @@ for _n in (2, 3):
     # a task of duration 0 is never running: it may start anywhere, also strictly inside another task
     SPACES[f"cumulative{_n}_dur013"] = (lambda i, n=_n: cplib.space_cumulative(i, n, None, (0, 1, 3)), lambda n=_n: cplib.size_cumulative(n))
     SPACES[f"cumulative{_n}_dem02"] = (lambda i, n=_n: cplib.space_cumulative(i, n, None, (1, 2, 3), (0, 2)), lambda n=_n: cplib.size_cumulative(n))
+SPACES["alldiff4_5"] = (cplib.space_alldiff4, cplib.size_alldiff4)
 SPACES["alldiff_wide"] = (cplib.space_alldiff_wide, cplib.size_alldiff_wide)
 SPACES["alldiff7_full_domains"] = (cplib.space_alldiff7_full, lambda: 4)
 SPACES["cumulative5_unit"] = (cplib.space_cumulative5, cplib.size_cumulative5)
@@ -352,6 +353,7 @@ def plan(tier, seed):
         ("cumulative1", 1, None),
         ("cumulative2", 2, None),
         ("cumulative3", 8, (seed % 4, 4) if q else None),
+        ("alldiff4_5", 1, None),
         ("alldiff_wide", 16, None),
         ("alldiff7_full_domains", 1, None),
         ("cumulative5_unit", 8, None),
